@@ -7,7 +7,7 @@ model that every step preserves tips/splits/path lengths (StepPreserves ...), an
 every transition with the observations its result must show.  explore_C09 rebuilds each
 reached state on real PhyloNode objects by replaying its history, makes the real call,
 and compares observations, receiver-unmodified, result-independent-of-receiver and
-structure, for three name classes.
+structure, for four name classes (plain; blanks/underscore/quotes inside; newick punctuation; leading/trailing blanks).
 spec -> code (TreeDist.tla): the four tree-to-tree distances on all ordered pairs of all
 topologies on a small tip set, against definitions by set difference / brute-force matching.
 code -> spec (TreeOpsTrace.tla): seeded random compositions on larger random trees with
@@ -28,7 +28,7 @@ import dist_C09 as D
 import explore_C09 as X
 import trace_C09 as T
 
-VARIANTS = ["plain", "soft", "meta"]
+VARIANTS = ["plain", "soft", "meta", "blank"]
 REQUIRED_ACTS = {
     "Make", "NewickRT", "NewickNamesRT", "NewickDefaultRT", "DndRT", "JsonRT", "RichDictRT", "Copy", "DeepCopy",
     "CopyModule", "Sorted", "SortedRev", "RootedAt", "RootedWithTip", "Unrooted", "SubTree", "RootAtMidpoint",
@@ -131,7 +131,7 @@ def check(run: Run):
     run.cov["rule"] = (
         "TreeOps: every transition (abstract tree, call) of the closed transformation graph over all plane tree shapes "
         "within the tier's tip bound (plus, thorough, a seeded sample of 6-tip shapes with two-call histories), each reached "
-        "on real objects by replaying its history, x 3 name classes; TreeDist: every ordered pair of all topologies on the "
+        "on real objects by replaying its history, x 4 name classes (the leading/trailing-blank class on the newick/json round-trip calls only); TreeDist: every ordered pair of all topologies on the "
         "tier's tip set (plus a seeded sample one tip larger), x 2 child orders x all method aliases x both argument orders. "
         "TreeOpsTrace: every call of seeded random compositions on random trees (6-12 tips, lengths k/8) judged by TLC. "
         "distinct_nontrivial = distinct (abstract tree, call) pairs + distinct same-kind tree pairs + recorded calls executed on real code"
@@ -139,7 +139,7 @@ def check(run: Run):
     run.cov["exhaustive"] = all(s.get("skipped_by_budget", 0) == 0 for s in ops)
     run.assumptions += [
         "branch lengths are dyadic (multiples of 1/2 in the exhaustive model, of 1/8 in recorded executions; exact in binary floating point); other positive lengths are not covered",
-        "names neither start-and-end with a single quote (get_newick treats those as pre-escaped) nor carry leading/trailing blanks",
+        "names do not both start and end with a single quote (get_newick treats those as pre-escaped)",
         "blank-containing names are read back with make_tree(underscore_unmunge=True); the default reader documents that it keeps underscores",
         "child order is not part of the abstract tree; only sorted() is checked for the order of tips",
         "root_at_midpoint is exercised while the diameter is an even number of half units and at most one created edge exists",
